@@ -4,6 +4,7 @@ import (
 	"fmt"
 	"io"
 	"os"
+	"reflect"
 	"regexp"
 	"strings"
 	"testing"
@@ -396,6 +397,171 @@ var c18Seqs = Define("C18", "sequences",
 	"Histories of 2..10 operations on ONE ChrootFs instance (root depth 0..3, optional trailing '/' or '/.') over a recording filesystem: paths drawn from allowed spellings of the root itself ('.', '', '/', 'a/..'), escapes to the root's parent, siblings and grandparents ('../x', 'a/../../x', '/../x', one or two segments deep), paths that leave and re-enter through the root's own name, and 1..4 free segments; all 13 operations. Oracle per step as in 'ops' (the verdict on a path never depends on earlier operations): outside -> error and nothing reaches the filesystem below; inside -> exactly one call on the canonical path. Non-trivial: the history has both inside and outside steps; distinct by history.",
 	genC18Seq, checkC18Seq)
 
+// ---------- surface: every way into the wrapper, not only the thirteen afero.Fs methods ----------
+
+type c18SurfCase struct {
+	Root     []string `json:"root"`
+	RootTail string   `json:"root_tail,omitempty"`
+	Entry    string   `json:"entry"` // "method:<Name>[:k]" (k = which string parameter takes the path) or "afero:<helper>"
+	Path     string   `json:"path"`
+	Lstater  bool     `json:"lstater"` // the filesystem below also offers afero.Lstater
+}
+
+// c18Methods lists every exported method of *ChrootFs that takes at least one string, found by reflection:
+// a method added to the wrapper later (an optional afero interface, a convenience helper) is covered
+// without touching this file. A method with a parameter that cannot be synthesised is listed as skipped.
+func c18Methods() (entries []string, skipped []string) {
+	typ := reflect.TypeOf(syslutil.NewChrootFs(&c18Rec{}, "/"))
+	for i := 0; i < typ.NumMethod(); i++ {
+		m := typ.Method(i)
+		nstr, ok := 0, true
+		for j := 1; j < m.Type.NumIn(); j++ {
+			switch p := m.Type.In(j); {
+			case p.Kind() == reflect.String:
+				nstr++
+			case p.Kind() == reflect.Int, p == reflect.TypeOf(os.FileMode(0)), p == reflect.TypeOf(time.Time{}), p.Kind() == reflect.Bool:
+			default:
+				ok = false
+			}
+		}
+		switch {
+		case nstr == 0:
+		case !ok:
+			skipped = append(skipped, m.Name)
+		default:
+			for k := 0; k < nstr; k++ {
+				entries = append(entries, fmt.Sprintf("method:%s:%d", m.Name, k))
+			}
+		}
+	}
+	return entries, skipped
+}
+
+var c18Helpers = []string{"afero:Walk", "afero:Glob", "afero:ReadDir", "afero:ReadFile", "afero:WriteFile", "afero:Exists", "afero:DirExists", "afero:IsDir",
+	"afero:ReadOnlyFs.Stat", "afero:ReadOnlyFs.Lstat", "afero:BasePathFs.Open", "afero:CopyOnWriteFs.Lstat", "afero:TempFile", "afero:SafeWriteReader"}
+
+func genC18Surf(t *rapid.T) c18SurfCase {
+	seq := genC18Seq(t) // same root and path pools as the histories
+	entries, _ := c18Methods()
+	entries = append(entries, c18Helpers...)
+	return c18SurfCase{Root: seq.Root, RootTail: seq.RootTail, Entry: pick(t, entries, "entry"), Path: seq.Steps[0].Path, Lstater: rapid.Bool().Draw(t, "lstater")}
+}
+
+func checkC18Surf(x *X, c c18SurfCase) error {
+	rootPath := c18RootPath(c.Root)
+	rec := &c18Rec{}
+	var below afero.Fs = rec
+	if c.Lstater {
+		below = c18RecL{rec}
+	}
+	fs := syslutil.NewChrootFs(below, rootPath+c.RootTail)
+	inside, canon, _ := c18Resolve(c.Root, c.Root, c.Path)
+	var callErr error
+	hasErr := false
+	parts := strings.Split(c.Entry, ":")
+	switch parts[0] {
+	case "method":
+		m := reflect.ValueOf(fs).MethodByName(parts[1])
+		if !m.IsValid() {
+			x.Class("surface:method-gone")
+			return nil
+		}
+		k := 0
+		if len(parts) > 2 {
+			fmt.Sscan(parts[2], &k)
+		}
+		var args []reflect.Value
+		si := 0
+		for j := 0; j < m.Type().NumIn(); j++ {
+			p := m.Type().In(j)
+			switch {
+			case p.Kind() == reflect.String:
+				if si == k {
+					args = append(args, reflect.ValueOf(c.Path))
+				} else {
+					args = append(args, reflect.ValueOf(c18Companion))
+				}
+				si++
+			default:
+				args = append(args, reflect.Zero(p))
+			}
+		}
+		outs := m.Call(args)
+		if n := len(outs); n > 0 && outs[n-1].Type().Implements(reflect.TypeOf((*error)(nil)).Elem()) {
+			hasErr = true
+			if !outs[n-1].IsNil() {
+				callErr = outs[n-1].Interface().(error)
+			}
+		}
+	default:
+		hasErr = true
+		switch parts[1] {
+		case "Walk":
+			callErr = afero.Walk(fs, c.Path, func(p string, fi os.FileInfo, err error) error { return err })
+		case "Glob":
+			_, callErr = afero.Glob(fs, c.Path+"/*")
+			hasErr = false // Glob ignores I/O errors by contract
+		case "ReadDir":
+			_, callErr = afero.ReadDir(fs, c.Path)
+		case "ReadFile":
+			_, callErr = afero.ReadFile(fs, c.Path)
+		case "WriteFile":
+			callErr = afero.WriteFile(fs, c.Path, []byte("x"), 0o644)
+		case "Exists":
+			_, callErr = afero.Exists(fs, c.Path)
+		case "DirExists":
+			_, callErr = afero.DirExists(fs, c.Path)
+		case "IsDir":
+			_, callErr = afero.IsDir(fs, c.Path)
+		case "ReadOnlyFs.Stat":
+			_, callErr = afero.NewReadOnlyFs(fs).Stat(c.Path)
+		case "ReadOnlyFs.Lstat":
+			_, _, callErr = afero.NewReadOnlyFs(fs).(afero.Lstater).LstatIfPossible(c.Path)
+		case "BasePathFs.Open":
+			_, callErr = afero.NewBasePathFs(fs, "/").Open(c.Path)
+			hasErr = false // BasePathFs has its own notion of the root: only what reaches the recorder matters
+		case "CopyOnWriteFs.Lstat":
+			_, _, callErr = afero.NewCopyOnWriteFs(fs, afero.NewMemMapFs()).(afero.Lstater).LstatIfPossible(c.Path)
+			hasErr = false // a miss in the base layer falls through to the overlay
+		case "TempFile":
+			_, callErr = afero.TempFile(fs, c.Path, "t")
+		case "SafeWriteReader":
+			callErr = afero.SafeWriteReader(fs, c.Path, strings.NewReader("x"))
+		}
+	}
+	x.Class("surface:" + parts[0] + ":" + parts[1])
+	desc := func() string {
+		return fmt.Sprintf("root=%q entry=%s path=%q (filesystem below offers Lstater: %v); reference: inside=%v canonical=%q; reached the filesystem below: %v; returned error: %v",
+			rootPath+c.RootTail, c.Entry, c.Path, c.Lstater, inside, canon, rec.calls, callErr)
+	}
+	for _, call := range rec.calls {
+		for _, p := range call.Paths {
+			segs, ok := c18Segments(p)
+			if ok && c18Under(c.Root, segs) {
+				continue
+			}
+			return finding("escape:surface:"+call.Op, "a path outside the root reached the filesystem through %s (%s %q): %s", c.Entry, call.Op, p, desc())
+		}
+	}
+	// helpers that derive further names from the path (TempFile, SafeWriteReader's parent directory, Glob's
+	// pattern) are judged by what reaches the recorder only
+	derived := parts[0] == "afero" && (parts[1] == "TempFile" || parts[1] == "SafeWriteReader" || parts[1] == "Glob" || parts[1] == "BasePathFs.Open")
+	if !inside && !derived {
+		x.NonTrivial(rootPath + c.RootTail + "\x00" + c.Entry + "\x00" + c.Path)
+		if len(rec.calls) > 0 {
+			return finding("outside-served:surface:"+parts[1], "a path that resolves outside the root was mapped to a file inside it: %s", desc())
+		}
+		if hasErr && callErr == nil {
+			return finding("outside-no-error:surface:"+parts[1], "a path outside the root was refused silently (no error): %s", desc())
+		}
+	}
+	return nil
+}
+
+var c18Surf = Define("C18", "surface",
+	"Every entry into the wrapper: each exported method of *ChrootFs that takes a string (found by reflection, so optional afero interfaces or helpers added to the type are covered when they appear; each string parameter in turn takes the drawn path, the others an in-root name) and afero's helpers layered on the wrapper (Walk, Glob, ReadDir, ReadFile, WriteFile, Exists, DirExists, IsDir, TempFile, SafeWriteReader, ReadOnlyFs/CopyOnWriteFs/BasePathFs on top), over a recorder that does or does not offer afero.Lstater itself (its Lstat calls are recorded too); roots and paths from the pools of 'sequences'. Oracle: nothing outside the root reaches the recorder; an outside path reaches nothing at all and yields an error where the entry can report one. Non-trivial: the path resolves outside the root.",
+	genC18Surf, checkC18Surf)
+
 // ---------- imports ----------
 
 type c18ImportCase struct {
@@ -593,6 +759,10 @@ func TestC18(t *testing.T) {
 	}
 	c18Ops.Run(t, scale(20000, 60000))
 	c18Seqs.Run(t, scale(6000, 40000))
+	if _, skipped := c18Methods(); len(skipped) > 0 {
+		R("C18").Note("surface-methods-not-driven", strings.Join(skipped, ", "))
+	}
+	c18Surf.Run(t, scale(8000, 40000))
 	c18Imports.Run(t, scale(800, 3000))
 }
 
